@@ -300,20 +300,6 @@ pub fn native_main(tier: Tier) {
     });
     acc.count("native_growth_cap_factor_small_budgets", cap_of(64) as u64);
     acc.count("native_growth_cap_factor_large_budgets", cap_of(256) as u64);
-    // absurd budgets: building the sorter may succeed or panic (allocation refused), but it must
-    // not hand an impossible layout to the allocator (that aborts this process: a verdict)
-    for budget in [usize::MAX, usize::MAX - 7, (1usize << 63) - 15, 1usize << 63, 1usize << 62] {
-        for realloc in [false, true] {
-            let r = guarded(|| {
-                let mut b = SorterBuilder::new(Concat).chunk_creator(TrackedCreator::default());
-                b.dump_threshold(budget).allow_realloc(realloc);
-                let mut s = b.build();
-                let _ = s.insert(b"k", b"v");
-            });
-            acc.evaluations += 1;
-            acc.hist(if r.is_ok() { "absurd_budget_accepted" } else { "absurd_budget_refused_by_panic" });
-        }
-    }
     // shipped sizes: no constant overrides, so the buffers have the sizes a user gets (128 KiB
     // growing by doubling to several MiB; 10 MiB at once when reallocation is off); anything the
     // code does differently for large allocations is only reachable here
@@ -347,6 +333,32 @@ pub fn native_main(tier: Tier) {
         acc.violation(Violation { signature: "alloc;unattributed".into(), summary: format!("C17: {} allocator errors recorded outside of any scenario", calloc::errors_total()), case: json!({"kind": "native-abort"}) });
     }
     println!("ACC-JSON {}", serde_json::to_string(&acc).unwrap());
+}
+
+pub const ABSURD_BUDGETS: [usize; 6] = [usize::MAX, usize::MAX - 7, usize::MAX - 15, (1usize << 63) - 15, 1usize << 63, 1usize << 62];
+
+/// One absurd budget, in a process of its own (`vc17 absurd <i>`): building the sorter may
+/// succeed, panic (allocation refused) or abort through the allocation-error handler, but it must
+/// not overflow its size arithmetic nor hand the allocator a zero-sized or impossible layout.
+/// Prints `ABSURD <accepted|refused|VIOLATION msg>`.
+pub fn native_absurd(i: usize) {
+    let (budget, realloc) = (ABSURD_BUDGETS[i / 2], i % 2 == 1);
+    let r = guarded(|| {
+        let mut b = SorterBuilder::new(Concat).chunk_creator(TrackedCreator::default());
+        b.dump_threshold(budget).allow_realloc(realloc);
+        let mut s = b.build();
+        let _ = s.insert(b"k", b"v");
+    });
+    let alloc = check_alloc("absurd budget");
+    let verdict = match (&r, &alloc) {
+        (_, Err(e)) => format!("VIOLATION dump_threshold({budget}).allow_realloc({realloc}): {e}"),
+        (Err(msg), _) if msg.contains("attempt to") && msg.contains("overflow") => {
+            format!("VIOLATION dump_threshold({budget}).allow_realloc({realloc}): size arithmetic overflows: {msg}")
+        }
+        (Err(_), _) => "refused".to_string(),
+        (Ok(()), _) => "accepted".to_string(),
+    };
+    println!("ABSURD {verdict}");
 }
 
 pub fn native_replay(case: &serde_json::Value) -> i32 {
@@ -466,6 +478,38 @@ pub fn run(tier: Tier) -> i32 {
             return 3;
         }
     }
+    // absurd budgets, one child process each: an abort through the allocation-error handler is a
+    // legitimate refusal, any other death (or an overflow / impossible layout reported by the
+    // child) is a verdict
+    for i in 0..ABSURD_BUDGETS.len() * 2 {
+        rep.acc.evaluations += 1;
+        let what = format!("dump_threshold({}).allow_realloc({})", ABSURD_BUDGETS[i / 2], i % 2 == 1);
+        let o = match Command::new(hd.join("target/release/vc17")).args(["absurd", &i.to_string()]).output() {
+            Ok(o) => o,
+            Err(e) => {
+                eprintln!("MACHINERY-FAILURE: cannot start vc17: {e}");
+                return 3;
+            }
+        };
+        let stdout = String::from_utf8_lossy(&o.stdout).to_string();
+        let stderr = String::from_utf8_lossy(&o.stderr).to_string();
+        let line = stdout.lines().find_map(|l| l.strip_prefix("ABSURD ")).map(|s| s.to_string());
+        let bad = match (&line, o.status.code()) {
+            (Some(l), _) if l.starts_with("VIOLATION") => Some(l.trim_start_matches("VIOLATION ").to_string()),
+            (Some(l), Some(0)) => {
+                rep.acc.hist(&format!("absurd_budget_{l}"));
+                None
+            }
+            (None, _) if stderr.contains("memory allocation of") => {
+                rep.acc.hist("absurd_budget_refused_by_allocation_error_abort");
+                None
+            }
+            _ => Some(format!("{what}: the process died: {:?} {}", o.status, stderr.lines().last().unwrap_or(""))),
+        };
+        if let Some(msg) = bad {
+            rep.acc.violation(Violation { signature: format!("absurd;{i}"), summary: format!("C17: {msg}"), case: json!({"kind": "absurd", "index": i}) });
+        }
+    }
     let mut miri_runs = 0u64;
     for (p, c) in children {
         let o = c.wait_with_output().expect("wait for miri");
@@ -523,7 +567,7 @@ pub fn run(tier: Tier) -> i32 {
     rep.acc.count("miri_scenario_runs", miri_runs);
     let capped = rep.acc.counters.get("native_configurations_capped").copied().unwrap_or(0) > 0;
     rep.set("exhaustive", json!(!capped));
-    rep.set("rule", json!("(a) native, checking global allocator (guard bands verified on free, dealloc layout must equal alloc layout, freed memory poisoned, per-scenario leak accounting) + overflow checks + debug assertions: closure BFS over the real sorter's bookkeeping states with a state-relative size menu {0, 1, exactly the remaining space, one byte more, larger than the buffer (one doubling), larger than twice the buffer (several doublings)} for both reallocation policies, growth symbols disabled once the buffer exceeds the cap printed in the caps in counters.native_growth_cap_factor_* x T; every transition replays the history on a fresh sorter, finishes it and compares the output with the model; plus read-path (scan/seek/range/prefix, every codec) and merge scenarios with results compared to the model; (b) the same kind of size sequences and read-path scenarios executed under Miri (Stacked Borrows, leak check) in 16 partitions; distinct_nontrivial = native configurations + Miri scenario runs"));
+    rep.set("rule", json!("(a) native, checking global allocator (guard bands verified on free, dealloc layout must equal alloc layout, freed memory poisoned, per-scenario leak accounting) + overflow checks + debug assertions: closure BFS over the real sorter's bookkeeping states with a state-relative size menu {0, 1, exactly the remaining space, one byte more, larger than the buffer (one doubling), larger than twice the buffer (several doublings)} for both reallocation policies, growth symbols disabled once the buffer exceeds the cap printed in the caps in counters.native_growth_cap_factor_* x T; every transition replays the history on a fresh sorter, finishes it and compares the output with the model; plus four runs with the shipped constants (buffers of 128 KiB doubling to 8 MiB, 10 MiB at once), absurd budgets (2^62 .. usize::MAX, each in a process of its own: refusal by panic or by the allocation-error abort is accepted, a size-arithmetic overflow or a zero-sized / impossible layout reaching the allocator is not), read-path (scan/seek/range/prefix, every codec) and merge scenarios with results compared to the model; (b) the same kind of size sequences and read-path scenarios executed under Miri (Stacked Borrows, leak check) in 16 partitions; distinct_nontrivial = native configurations + Miri scenario runs"));
     rep.set("bound", json!({"native": "closure below the growth cap (see samples and counters.native_growth_cap_factor_*)", "miri_partitions": parts}));
     rep.assume("Miri's verdict is per execution: the claim is 'for every enumerated execution'; zstd (FFI) is not run under Miri");
     rep.assume("the native allocator cannot see out-of-bounds reads; those are Miri's part");
@@ -548,7 +592,7 @@ pub fn replay(case: &serde_json::Value) -> i32 {
             let st = Command::new("cargo")
                 .current_dir(hd.join("vmiri"))
                 .args(["+nightly", "miri", "run", "--offline", "-q", "--", "one", scen])
-                .env("MIRIFLAGS", "-Zmiri-disable-isolation")
+                .env("MIRIFLAGS", "-Zmiri-disable-isolation -Zmiri-symbolic-alignment-check")
                 .env("CARGO_TARGET_DIR", hd.join("target/miri-target"))
                 .status();
             match st {
@@ -556,6 +600,24 @@ pub fn replay(case: &serde_json::Value) -> i32 {
                 Ok(_) => {
                     println!("VIOLATION property=C17 replay=(replayed)");
                     1
+                }
+                Err(_) => 3,
+            }
+        }
+        "absurd" => {
+            let i = case["index"].as_u64().unwrap_or(0);
+            let o = Command::new(hd.join("target/release/vc17")).args(["absurd", &i.to_string()]).output();
+            match o {
+                Ok(o) => {
+                    let out = String::from_utf8_lossy(&o.stdout).to_string();
+                    print!("{out}");
+                    let refused_by_abort = String::from_utf8_lossy(&o.stderr).contains("memory allocation of");
+                    if out.contains("ABSURD VIOLATION") || !(o.status.success() || refused_by_abort) {
+                        println!("VIOLATION property=C17 replay=(replayed)");
+                        1
+                    } else {
+                        0
+                    }
                 }
                 Err(_) => 3,
             }
